@@ -2,6 +2,7 @@ package main
 
 import (
 	"go/token"
+	"sort"
 	"strings"
 
 	"golang.org/x/tools/go/ssa"
@@ -24,6 +25,7 @@ type strPart struct {
 	Lit   string    // literal text (Val == nil)
 	Val   ssa.Value // a non-literal piece
 	IsLit bool
+	Sub   map[*ssa.Parameter]ssa.Value // the parameter bindings under which Val was reached (helper calls followed)
 }
 
 func (cx *Ctx) strParts(v ssa.Value) []strPart {
@@ -60,6 +62,48 @@ func (cx *Ctx) strParts0(v ssa.Value, sub map[*ssa.Parameter]ssa.Value, depth in
 		}
 	case *ssa.Call:
 		name := calleeName(x)
+		if name == "(*strings.Builder).String" && len(x.Call.Args) == 1 {
+			if al, ok := x.Call.Args[0].(*ssa.Alloc); ok {
+				// a local Builder written in straight-line code: every write dominates the String() call
+				type wr struct {
+					c   *ssa.Call
+					arg ssa.Value
+				}
+				var ws []wr
+				okB := true
+				for _, ref := range nonDebugRefs(al) {
+					c, isC := ref.(*ssa.Call)
+					if !isC {
+						okB = false
+						break
+					}
+					switch calleeName(c) {
+					case "(*strings.Builder).WriteString":
+						if !(c.Block() == x.Block() && instrIndex(c) < instrIndex(x) || c.Block() != x.Block() && c.Block().Dominates(x.Block())) {
+							okB = false
+						}
+						ws = append(ws, wr{c, c.Call.Args[1]})
+					case "(*strings.Builder).String", "(*strings.Builder).Len", "(*strings.Builder).Grow":
+					default:
+						okB = false
+					}
+				}
+				if okB && len(ws) > 0 {
+					sort.SliceStable(ws, func(i, j int) bool {
+						bi, bj := ws[i].c.Block(), ws[j].c.Block()
+						if bi == bj {
+							return instrIndex(ws[i].c) < instrIndex(ws[j].c)
+						}
+						return bi.Dominates(bj)
+					})
+					var out []strPart
+					for _, w := range ws {
+						out = append(out, cx.strParts0(w.arg, sub, depth+1)...)
+					}
+					return out
+				}
+			}
+		}
 		if name == "fmt.Sprintf" && len(x.Call.Args) == 2 {
 			if f, ok := constString(x.Call.Args[0]); ok {
 				if parts, ok := cx.sprintfParts(f, x.Call.Args[1], sub, depth); ok {
@@ -88,7 +132,7 @@ func (cx *Ctx) strParts0(v ssa.Value, sub map[*ssa.Parameter]ssa.Value, depth in
 			}
 		}
 	}
-	return []strPart{{Val: v}}
+	return []strPart{{Val: v, Sub: sub}}
 }
 
 func (cx *Ctx) sprintfParts(format string, args ssa.Value, sub map[*ssa.Parameter]ssa.Value, depth int) ([]strPart, bool) {
